@@ -1,9 +1,11 @@
 // CAST-256 (crate cast6): conformance to RFC 2612 for 128/160/192/224/256-bit keys (C08), round trip (C01),
 // panic freedom (C20).
-// L: forward_quad, reverse_quad, forward_octave (f1/f2/f3, S1..S4) on their full input spaces vs the oracle;
-//    reverse_quad(m, r) is the inverse of forward_quad(m, r) for every (m, r).
-// W: key_schedule / new_from_slice for the five key lengths with forward_octave uninterpreted (the oracle generates
-//    Tm/Tr by the RFC's recurrence, so the repository's TM/TR tables are checked too); the 12 quad-rounds of
+// L: forward_quad, reverse_quad, forward_octave (f1/f2/f3, S1..S4) on their full input spaces vs the RFC's equations
+//    (cut points, one or two round functions per harness); QBAR(m, r) is the inverse of Q(m, r) for every (m, r)
+//    (shown on the quad-round structure with f1/f2/f3 uninterpreted).
+// W: key_schedule for every 256-bit key with forward_octave uninterpreted (the oracle generates Tm/Tr by the RFC's
+//    recurrence, so the repository's TM/TR tables are checked too); new_from_slice for the five key lengths
+//    (zero padding, exactly one key_schedule call, key_schedule replaced by a recorder); the 12 quad-rounds of
 //    encrypt_block / decrypt_block on an arbitrary (masking, rotate) state with the quads uninterpreted; round trips
 //    with the quads as uninterpreted *keyed* bijections (Q(m, r) and QBAR(m, r) mutually inverse for each (m, r)).
 //
@@ -182,39 +184,81 @@ pub fn bij_qr(beta: &mut [u32; 4], m: &[u32; 4], rr: &[u8; 4]) {
     *beta = u4(qbij::inv(p4(beta), p4(m), u32::from_le_bytes(*rr)));
 }
 
-//@ harness name=c6_leaf_quad_fwd prop=C08,C20 tier=quick bits=288 est=120 desc="L: forward_quad(beta, m, r) == RFC 2612 Q (f1, f2, f3, f1 with S1..S4) for every 128-bit beta, every masking key m, every rotation key r (all u8 values)"
-verif_harness! {
-    name: c6_leaf_quad_fwd,
-    bytes: 36,
-    unwind: 20,
-    prop: |inp| {
-        let mut b = words4(inp, 0);
-        let m = words4(inp, 16);
-        let rr: [u8; 4] = take(inp, 32);
-        let mut e = b;
-        crate::forward_quad(&mut b, &m, &rr);
-        r::forward_quad(&mut e, &m, &rr);
-        Some(b == e)
+// The leaf lemmas compare each output word of the real function with the RFC's defining equation evaluated by the
+// oracle's f1/f2/f3 on the *real function's own* earlier output words ("cut points").  The four (eight) equations
+// together are exactly BETA' = Q(BETA) (KAPPA' = W(KAPPA)) of the RFC, i.e. equality with r::forward_quad /
+// r::reverse_quad / r::forward_octave, but every equation is a depth-1 comparison of one round function.
+// Each quad harness checks two of the equations, each octave harness one (one round function comparison costs the
+// solver one to two minutes: 32-bit add/sub chains around four 256-entry table lookups).
+fn fwd_rel(x: &[u32; 4], y: &[u32; 4], m: &[u32; 4], rr: &[u8; 4], part: usize) -> bool {
+    // C' = C ^ f1(D); B' = B ^ f2(C'); A' = A ^ f3(B'); D' = D ^ f1(A')
+    if part == 0 {
+        (y[2] == x[2] ^ r::f1(x[3], m[0], rr[0])) & (y[1] == x[1] ^ r::f2(y[2], m[1], rr[1]))
+    } else {
+        (y[0] == x[0] ^ r::f3(y[1], m[2], rr[2])) & (y[3] == x[3] ^ r::f1(y[0], m[3], rr[3]))
+    }
+}
+fn rev_rel(x: &[u32; 4], y: &[u32; 4], m: &[u32; 4], rr: &[u8; 4], part: usize) -> bool {
+    // D' = D ^ f1(A); A' = A ^ f3(B); B' = B ^ f2(C); C' = C ^ f1(D')
+    if part == 0 {
+        (y[3] == x[3] ^ r::f1(x[0], m[3], rr[3])) & (y[0] == x[0] ^ r::f3(x[1], m[2], rr[2]))
+    } else {
+        (y[1] == x[1] ^ r::f2(x[2], m[1], rr[1])) & (y[2] == x[2] ^ r::f1(y[3], m[0], rr[0]))
+    }
+}
+fn quad_prop(inp: &[u8; 36], fwd: bool, part: usize) -> Option<bool> {
+    let x = words4(inp, 0);
+    let m = words4(inp, 16);
+    let rr: [u8; 4] = take(inp, 32);
+    let mut y = x;
+    if fwd {
+        crate::forward_quad(&mut y, &m, &rr);
+        Some(fwd_rel(&x, &y, &m, &rr, part))
+    } else {
+        crate::reverse_quad(&mut y, &m, &rr);
+        Some(rev_rel(&x, &y, &m, &rr, part))
     }
 }
 
-//@ harness name=c6_leaf_quad_rev prop=C08,C20 tier=quick bits=288 est=120 desc="L: reverse_quad(beta, m, r) == RFC 2612 QBAR for every beta, m, r"
+//@ harness name=c6_leaf_quad_fwd_a prop=C08,C01,C20 tier=quick bits=288 est=150 desc="L: forward_quad(beta, m, r) vs RFC 2612 Q, equations C' = C ^ f1(D, Km0, Kr0) and B' = B ^ f2(C', Km1, Kr1) (f1/f2 with S1..S4), every 128-bit beta, every masking key m, every rotation key r (all u8 values)"
 verif_harness! {
-    name: c6_leaf_quad_rev,
+    name: c6_leaf_quad_fwd_a,
     bytes: 36,
     unwind: 20,
-    prop: |inp| {
-        let mut b = words4(inp, 0);
-        let m = words4(inp, 16);
-        let rr: [u8; 4] = take(inp, 32);
-        let mut e = b;
-        crate::reverse_quad(&mut b, &m, &rr);
-        r::reverse_quad(&mut e, &m, &rr);
-        Some(b == e)
-    }
+    prop: |inp| { quad_prop(inp, true, 0) }
 }
 
-//@ harness name=c6_leaf_quad_inv prop=C01 tier=quick bits=288 est=120 desc="L: reverse_quad(forward_quad(beta)) == beta and forward_quad(reverse_quad(beta)) == beta under the same (m, r), for every beta, m, r (justifies the keyed uninterpreted bijections of the round-trip harnesses)"
+//@ harness name=c6_leaf_quad_fwd_b prop=C08,C01,C20 tier=quick bits=288 est=150 desc="L: forward_quad vs RFC 2612 Q, equations A' = A ^ f3(B', Km2, Kr2) and D' = D ^ f1(A', Km3, Kr3), every beta, m, r; with _a: forward_quad == Q"
+verif_harness! {
+    name: c6_leaf_quad_fwd_b,
+    bytes: 36,
+    unwind: 20,
+    prop: |inp| { quad_prop(inp, true, 1) }
+}
+
+//@ harness name=c6_leaf_quad_rev_a prop=C08,C01,C20 tier=quick bits=288 est=150 desc="L: reverse_quad(beta, m, r) vs RFC 2612 QBAR, equations D' = D ^ f1(A, Km3, Kr3) and A' = A ^ f3(B, Km2, Kr2), every beta, m, r"
+verif_harness! {
+    name: c6_leaf_quad_rev_a,
+    bytes: 36,
+    unwind: 20,
+    prop: |inp| { quad_prop(inp, false, 0) }
+}
+
+//@ harness name=c6_leaf_quad_rev_b prop=C08,C01,C20 tier=quick bits=288 est=150 desc="L: reverse_quad vs RFC 2612 QBAR, equations B' = B ^ f2(C, Km1, Kr1) and C' = C ^ f1(D', Km0, Kr0), every beta, m, r; with _a: reverse_quad == QBAR"
+verif_harness! {
+    name: c6_leaf_quad_rev_b,
+    bytes: 36,
+    unwind: 20,
+    prop: |inp| { quad_prop(inp, false, 1) }
+}
+
+// f1/f2/f3 as uninterpreted functions of (data, masking key, rotation key): the quad-round structure is invertible
+// for any round functions.
+ufn!(uf_f1, (d: u32, km: u32, kr: u8) -> u32, r::f1);
+ufn!(uf_f2, (d: u32, km: u32, kr: u8) -> u32, r::f2);
+ufn!(uf_f3, (d: u32, km: u32, kr: u8) -> u32, r::f3);
+
+//@ harness name=c6_leaf_quad_inv prop=C01 tier=quick bits=288 est=30 desc="L (structure, on the oracle's quad-rounds with f1/f2/f3 uninterpreted): QBAR(Q(beta)) == beta and Q(QBAR(beta)) == beta under the same (m, r), every beta, m, r.  With c6_leaf_quad_fwd/_rev (real forward_quad/reverse_quad == Q/QBAR) this makes the real quads mutually inverse per (m, r) -- the assumption of the keyed bijections in the round-trip harnesses"
 verif_harness! {
     name: c6_leaf_quad_inv,
     bytes: 36,
@@ -224,51 +268,204 @@ verif_harness! {
         let m = words4(inp, 16);
         let rr: [u8; 4] = take(inp, 32);
         let mut b = b0;
-        crate::forward_quad(&mut b, &m, &rr);
-        crate::reverse_quad(&mut b, &m, &rr);
+        r::forward_quad_with(&mut b, &m, &rr, uf_f1::call, uf_f2::call, uf_f3::call);
+        r::reverse_quad_with(&mut b, &m, &rr, uf_f1::call, uf_f2::call, uf_f3::call);
         vcheck!(b == b0);
-        crate::reverse_quad(&mut b, &m, &rr);
-        crate::forward_quad(&mut b, &m, &rr);
+        r::reverse_quad_with(&mut b, &m, &rr, uf_f1::call, uf_f2::call, uf_f3::call);
+        r::forward_quad_with(&mut b, &m, &rr, uf_f1::call, uf_f2::call, uf_f3::call);
         Some(b == b0)
     }
 }
 
-//@ harness name=c6_leaf_octave prop=C08,C20 tier=quick bits=576 est=200 desc="L: forward_octave(kappa, m[8], r[8]) == RFC 2612 W for every 256-bit kappa and every 8 masking / 8 rotation constants"
-verif_harness! {
-    name: c6_leaf_octave,
-    bytes: 72,
-    unwind: 40,
-    prop: |inp| {
-        let (a, b, c, d) = (words4(inp, 0), words4(inp, 16), words4(inp, 32), words4(inp, 48));
-        let mut k = [a[0], a[1], a[2], a[3], b[0], b[1], b[2], b[3]];
-        let m = [c[0], c[1], c[2], c[3], d[0], d[1], d[2], d[3]];
-        let rr: [u8; 8] = take(inp, 64);
-        let mut e = k;
-        crate::forward_octave(&mut k, &m, &rr);
-        r::forward_octave(&mut e, &m, &rr);
-        Some(k == e)
-    }
+fn oct_prop(inp: &[u8; 72], part: usize) -> Option<bool> {
+    let (a, b, c, d) = (words4(inp, 0), words4(inp, 16), words4(inp, 32), words4(inp, 48));
+    let x = [a[0], a[1], a[2], a[3], b[0], b[1], b[2], b[3]];
+    let m = [c[0], c[1], c[2], c[3], d[0], d[1], d[2], d[3]];
+    let rr: [u8; 8] = take(inp, 64);
+    let mut y = x;
+    crate::forward_octave(&mut y, &m, &rr);
+    // G ^= f1(H); F ^= f2(G); E ^= f3(F); D ^= f1(E); C ^= f2(D); B ^= f3(C); A ^= f1(B); H ^= f2(A)
+    Some(match part {
+        0 => y[6] == x[6] ^ r::f1(x[7], m[0], rr[0]),
+        1 => y[5] == x[5] ^ r::f2(y[6], m[1], rr[1]),
+        2 => y[4] == x[4] ^ r::f3(y[5], m[2], rr[2]),
+        3 => y[3] == x[3] ^ r::f1(y[4], m[3], rr[3]),
+        4 => y[2] == x[2] ^ r::f2(y[3], m[4], rr[4]),
+        5 => y[1] == x[1] ^ r::f3(y[2], m[5], rr[5]),
+        6 => y[0] == x[0] ^ r::f1(y[1], m[6], rr[6]),
+        _ => y[7] == x[7] ^ r::f2(y[0], m[7], rr[7]),
+    })
 }
 
-//@ harness name=c6_key_schedule prop=C08,C20 tier=quick bits=259 stub=1 est=200 desc="W: Cast6::new_from_slice(key[..len]) for symbolic len in {16,20,24,28,32}, every key: masking/rotate == RFC 2612 key schedule of the zero-padded key (24 octaves, Tm/Tr generated from Cm, Mm, Cr, Mr; Kr = 5 LSBs of A,C,E,G; Km = H,F,D,B); forward_octave uninterpreted (shared)"
+//@ harness name=c6_leaf_octave_0 prop=C08,C20 tier=quick bits=576 est=120 desc="L: forward_octave(kappa, m[8], r[8]) vs RFC 2612 W, equation G' = G ^ f1(H, Tm0, Tr0) (primed = output words of the real function), every 256-bit kappa, every 8 masking / 8 rotation constants"
+verif_harness! {
+    name: c6_leaf_octave_0,
+    bytes: 72,
+    unwind: 40,
+    prop: |inp| { oct_prop(inp, 0) }
+}
+
+//@ harness name=c6_leaf_octave_1 prop=C08,C20 tier=quick bits=576 est=120 desc="L: forward_octave(kappa, m[8], r[8]) vs RFC 2612 W, equation F' = F ^ f2(G', Tm1, Tr1) (primed = output words of the real function), every 256-bit kappa, every 8 masking / 8 rotation constants"
+verif_harness! {
+    name: c6_leaf_octave_1,
+    bytes: 72,
+    unwind: 40,
+    prop: |inp| { oct_prop(inp, 1) }
+}
+
+//@ harness name=c6_leaf_octave_2 prop=C08,C20 tier=quick bits=576 est=120 desc="L: forward_octave(kappa, m[8], r[8]) vs RFC 2612 W, equation E' = E ^ f3(F', Tm2, Tr2) (primed = output words of the real function), every 256-bit kappa, every 8 masking / 8 rotation constants"
+verif_harness! {
+    name: c6_leaf_octave_2,
+    bytes: 72,
+    unwind: 40,
+    prop: |inp| { oct_prop(inp, 2) }
+}
+
+//@ harness name=c6_leaf_octave_3 prop=C08,C20 tier=quick bits=576 est=120 desc="L: forward_octave(kappa, m[8], r[8]) vs RFC 2612 W, equation D' = D ^ f1(E', Tm3, Tr3) (primed = output words of the real function), every 256-bit kappa, every 8 masking / 8 rotation constants"
+verif_harness! {
+    name: c6_leaf_octave_3,
+    bytes: 72,
+    unwind: 40,
+    prop: |inp| { oct_prop(inp, 3) }
+}
+
+//@ harness name=c6_leaf_octave_4 prop=C08,C20 tier=quick bits=576 est=120 desc="L: forward_octave(kappa, m[8], r[8]) vs RFC 2612 W, equation C' = C ^ f2(D', Tm4, Tr4) (primed = output words of the real function), every 256-bit kappa, every 8 masking / 8 rotation constants"
+verif_harness! {
+    name: c6_leaf_octave_4,
+    bytes: 72,
+    unwind: 40,
+    prop: |inp| { oct_prop(inp, 4) }
+}
+
+//@ harness name=c6_leaf_octave_5 prop=C08,C20 tier=quick bits=576 est=120 desc="L: forward_octave(kappa, m[8], r[8]) vs RFC 2612 W, equation B' = B ^ f3(C', Tm5, Tr5) (primed = output words of the real function), every 256-bit kappa, every 8 masking / 8 rotation constants"
+verif_harness! {
+    name: c6_leaf_octave_5,
+    bytes: 72,
+    unwind: 40,
+    prop: |inp| { oct_prop(inp, 5) }
+}
+
+//@ harness name=c6_leaf_octave_6 prop=C08,C20 tier=quick bits=576 est=120 desc="L: forward_octave(kappa, m[8], r[8]) vs RFC 2612 W, equation A' = A ^ f1(B', Tm6, Tr6) (primed = output words of the real function), every 256-bit kappa, every 8 masking / 8 rotation constants"
+verif_harness! {
+    name: c6_leaf_octave_6,
+    bytes: 72,
+    unwind: 40,
+    prop: |inp| { oct_prop(inp, 6) }
+}
+
+//@ harness name=c6_leaf_octave_7 prop=C08,C20 tier=quick bits=576 est=120 desc="L: forward_octave(kappa, m[8], r[8]) vs RFC 2612 W, equation H' = H ^ f2(A', Tm7, Tr7) (primed = output words of the real function), every 256-bit kappa, every 8 masking / 8 rotation constants; the eight harnesses c6_leaf_octave_0..7 together: forward_octave == W"
+verif_harness! {
+    name: c6_leaf_octave_7,
+    bytes: 72,
+    unwind: 40,
+    prop: |inp| { oct_prop(inp, 7) }
+}
+
+//@ harness name=c6_key_schedule prop=C08,C20 tier=quick bits=256 stub=1 est=200 desc="W: Cast6::key_schedule(256-bit key) on a zeroed state, every key: masking/rotate == RFC 2612 key schedule (24 octaves, Tm/Tr generated from Cm, Mm, Cr, Mr -- checks the TM/TR tables; Kr = 5 LSBs of A,C,E,G; Km = H,F,D,B; big-endian words); forward_octave uninterpreted (shared)"
 verif_harness! {
     name: c6_key_schedule,
-    bytes: 33,
+    bytes: 32,
     unwind: 70,
     stubs: [(crate::forward_octave, stub_oct)],
     prop: |inp| {
         let key: [u8; 32] = take(inp, 0);
-        let len = inp[32] as usize;
-        vassume!(len == 16 || len == 20 || len == 24 || len == 28 || len == 32);
-        let c = match Cast6::new_from_slice(&key[..len]) {
-            Ok(c) => c,
-            Err(_) => return Some(false),
-        };
-        let (km, kr) = r::key_schedule_with(&r::pad_key(&key, len), stub_oct);
+        let mut c = Cast6 { masking: [[0u32; 4]; 12], rotate: [[0u8; 4]; 12] };
+        c.key_schedule(&key);
+        let (km, kr) = r::key_schedule_with(&key, stub_oct);
         let mut i = 0;
         while i < 12 {
             vcheck!(c.masking[i] == km[i]);
             vcheck!(c.rotate[i] == kr[i]);
+            i += 1;
+        }
+        Some(true)
+    }
+}
+
+// new_from_slice = zero-padding + key_schedule: key_schedule is replaced by a recorder that logs the key it is
+// given (and whether the state it starts from is zeroed, as in c6_key_schedule) and produces an arbitrary
+// (masking, rotate) value taken from the primary inputs.
+#[cfg(kani)]
+pub mod ksr {
+    pub static mut KEY: [u8; 32] = [0; 32];
+    pub static mut CALLS: usize = 0;
+    pub static mut ZEROED: bool = false;
+    pub static mut RET_M: [[u32; 4]; 12] = [[0; 4]; 12];
+    pub static mut RET_R: [[u8; 4]; 12] = [[0; 4]; 12];
+}
+#[cfg(kani)]
+pub fn rec_ks(c: &mut Cast6, key: &[u8; 32]) {
+    unsafe {
+        ksr::CALLS += 1;
+        ksr::KEY = *key;
+        let mut z = true;
+        let mut i = 0;
+        while i < 12 {
+            let mut j = 0;
+            while j < 4 {
+                z &= c.masking[i][j] == 0 && c.rotate[i][j] == 0;
+                j += 1;
+            }
+            i += 1;
+        }
+        ksr::ZEROED = z;
+        c.masking = ksr::RET_M;
+        c.rotate = ksr::RET_R;
+    }
+}
+#[cfg(not(kani))]
+pub fn rec_ks(c: &mut Cast6, key: &[u8; 32]) {
+    c.key_schedule(key)
+}
+
+//@ harness name=c6_new_from_slice prop=C08,C20 tier=quick bits=259 stub=1 est=60 desc="W: Cast6::new_from_slice(key[..len]) for symbolic len in {16,20,24,28,32}, every key: key_schedule is called exactly once, on a zeroed state, with the key zero-padded to 256 bits, and its result is returned unchanged (key_schedule replaced by a recorder returning an arbitrary state); with c6_key_schedule: conformance for the five key lengths"
+verif_harness! {
+    name: c6_new_from_slice,
+    bytes: 273,
+    unwind: 40,
+    stubs: [(crate::Cast6::key_schedule, rec_ks)],
+    prop: |inp| {
+        let key: [u8; 32] = take(inp, 0);
+        let len = inp[32] as usize;
+        vassume!(len == 16 || len == 20 || len == 24 || len == 28 || len == 32);
+        let padded = r::pad_key(&key, len);
+        let mut em = [[0u32; 4]; 12];
+        let mut er = [[0u8; 4]; 12];
+        #[cfg(kani)]
+        {
+            let mut i = 0;
+            while i < 12 {
+                em[i] = words4(inp, 33 + 16 * i);
+                er[i] = take(inp, 225 + 4 * i);
+                i += 1;
+            }
+            unsafe {
+                ksr::RET_M = em;
+                ksr::RET_R = er;
+            }
+        }
+        // native replay: the real key_schedule runs (stubs do not exist there)
+        #[cfg(not(kani))]
+        {
+            let mut t = Cast6 { masking: em, rotate: er };
+            t.key_schedule(&padded);
+            em = t.masking;
+            er = t.rotate;
+        }
+        let c = match Cast6::new_from_slice(&key[..len]) {
+            Ok(c) => c,
+            Err(_) => return Some(false),
+        };
+        #[cfg(kani)]
+        unsafe {
+            vcheck!(ksr::CALLS == 1 && ksr::ZEROED);
+            let seen: [u8; 32] = ksr::KEY;
+            vcheck!(seen == padded);
+        }
+        let mut i = 0;
+        while i < 12 {
+            vcheck!(c.masking[i] == em[i]);
+            vcheck!(c.rotate[i] == er[i]);
             i += 1;
         }
         Some(true)
